@@ -44,11 +44,26 @@ RAISES = {
 
 
 def run(repo: Repo, rep: Report, tier: str) -> None:
-    _closure(repo, rep)
-    _context(repo, rep)
-    _default(repo, rep)
-    _recursion(repo, rep)
-    _models(repo, rep)
+    try:
+        _closure(repo, rep)
+    except Undecided as ex:
+        rep.undecide("closure", str(ex))
+    try:
+        _context(repo, rep)
+    except Undecided as ex:
+        rep.undecide("context", str(ex))
+    try:
+        _default(repo, rep)
+    except Undecided as ex:
+        rep.undecide("default", str(ex))
+    try:
+        _recursion(repo, rep)
+    except Undecided as ex:
+        rep.undecide("recursion", str(ex))
+    try:
+        _models(repo, rep)
+    except Undecided as ex:
+        rep.undecide("models", str(ex))
     _totality(repo, rep, tier)
 
 
@@ -134,6 +149,16 @@ def _norm_of(expr: ast.expr, param: str) -> Optional[str]:
 
 
 def _context(repo: Repo, rep: Report) -> None:
+    from ..core import ownership
+
+    oka, bada = ownership.param_attr_stores(repo)
+    mine = [(fi, t, ln) for fi, t, ln in bada if fi.module == M_SCHEMA_BUILDER]
+    for fi, txt, ln in mine:
+        rep.violation("R20.2", fi.key, f"per-call option written into the caller's Context: `{txt}`",
+                      "dialect / all_refs / ref_prefix / plugins given for one build must not stick in a Context (or builder) the caller reuses: later builds would emit references "
+                      "with a stale prefix or switch to all-refs output", loc=f"{fi.loc.split(':')[0]}:{ln}")
+    if not mine:
+        rep.ok("R20.2", "per-call options are stored only in the per-build Context created by build_json_schema", None)
     bjs = repo.func(M_SCHEMA_BUILDER, "build_json_schema")
     init = repo.func(M_SCHEMA_BUILDER, "JSONSchemaBuilder.__init__")
     norms = {}
@@ -163,7 +188,8 @@ def _context(repo: Repo, rep: Report) -> None:
     # shared definitions
     ctx_call = next((n for n in walk_no_nested(bjs.node) if isinstance(n, ast.Call) and ast.unparse(n.func) == "Context" and n.keywords), None)
     if ctx_call is None:
-        rep.undecide("R20.2", "build_json_schema does not rebuild the supplied Context")
+        if not mine:
+            rep.undecide("R20.2", "build_json_schema does not rebuild the supplied Context")
     else:
         kw = {k.arg: ast.unparse(k.value) for k in ctx_call.keywords}
         if kw.get("definitions") == "context.definitions":
